@@ -411,8 +411,15 @@ def do_validate():
             ndr, nphi, ndz, dphi, J = fn(h.radius, dr, phi0, dz, kappa, tanl, *p0, *p1)
             n_eval += 4
             Jm = np.array(J); Em = Jm @ E @ Jm.T
-            ok = close(out[0], ndr, sc) and angclose(out[1], nphi) and close(out[2], ndz, sc * (1 + abs(tanl))) \
-                and np.allclose(out[3], Em, rtol=1e-7, atol=1e-12 * (1 + np.abs(Em).max()))
+            # a turning angle of +-pi up to rounding (e.g. a far-side helix moved along z only: it is re-written on the near side) sits ON the
+            # branch cut of the wrap: +pi and -pi are both right, dz then differs by one helix pitch and the Jacobian's dz row with it
+            on_cut = abs(abs(float(dphi)) - math.pi) < 1e-6
+            pitch = abs(TWO_PI * (ALPHA / kappa) * tanl)
+            dz_ok = close(out[2], ndz, sc * (1 + abs(tanl))) or (on_cut and min(abs(out[2] - ndz - k * pitch) for k in (-1, 1)) <= 1e-9 * sc * (1 + abs(tanl)))
+            same_branch = close(out[2], ndz, sc * (1 + abs(tanl)))
+            if on_cut: bump("validate:turning-angle-on-branch-cut")
+            ok = close(out[0], ndr, sc) and angclose(out[1], nphi) and dz_ok \
+                and (not same_branch or np.allclose(out[3], Em, rtol=1e-7, atol=1e-12 * (1 + np.abs(Em).max())))
             if not ok:
                 report(f"validate:change_pivot:{fe}", f"translated model differs from implementation ({fe}): model {(ndr, nphi, ndz)} impl {out[:3]}",
                        {"par": par, "pivot": p0, "new_pivot": p1})
